@@ -356,11 +356,6 @@ fn compare_topic_details(h: &mut Harness, sid: u32, t: &MTopic, d: &iggy::models
     if (d.compression_algorithm == iggy::compression::compression_algorithm::CompressionAlgorithm::Gzip) != (t.compression == 2) {
         problems.push(format!("compression {:?} vs model {}", d.compression_algorithm, t.compression));
     }
-    if let Some(created) = t.created_at {
-        if d.created_at.as_micros() != created {
-            problems.push(format!("created_at {} vs first seen {created}", d.created_at.as_micros()));
-        }
-    }
     let mut ids: Vec<u32> = d.partitions.iter().map(|p| p.id).collect();
     ids.sort();
     let want: Vec<u32> = t.partitions.keys().copied().collect();
@@ -448,11 +443,6 @@ pub async fn check_stream(h: &mut Harness, c: usize, stream: &IdRef) {
             let s = h.model.streams[&sid].clone();
             if d.id != s.id || d.name != s.name || d.topics_count != s.topics.len() as u32 || d.topics.len() != s.topics.len() {
                 h.violate("C06", "get_equals_model", "stream", format!("get_stream: {}:{} topics {} vs model {}:{} topics {}", d.id, d.name, d.topics_count, s.id, s.name, s.topics.len()));
-            }
-            if let Some(created) = s.created_at {
-                if d.created_at.as_micros() != created {
-                    h.violate("C06", "get_equals_model", "stream_created_at", format!("stream {sid} created_at {} vs first seen {created}", d.created_at.as_micros()));
-                }
             }
             let mut ids: Vec<(u32, String)> = d.topics.iter().map(|t| (t.id, t.name.clone())).collect();
             ids.sort();
